@@ -206,6 +206,8 @@ structure OSwapRes where
   slippageAmount : Int
   bonus : Int
   oracleAmount : Int
+  /-- ghost (not returned by the Go function): the weight-breaking fee actually applied. -/
+  wbf : Int := 0
 deriving Repr, DecidableEq, Inhabited
 
 /-- fee / bonus tail shared by both directions: returns (weightBreakingFee, weightBalanceBonus). -/
@@ -266,7 +268,7 @@ def oSwapOut (p : OPool) (iIn : Nat) (amtIn fee : Int) (pr : OParams) : Except E
             let o2 ← mulC o1 f2
             let out := o2.tdiv P
             if out < 0 then .error .panicNegCoin
-            else pure { amount := out, slippage := slippage, slippageAmount := slippageAmount, bonus := bonus, oracleAmount := oracleOut }
+            else pure { amount := out, slippage := slippage, slippageAmount := slippageAmount, bonus := bonus, oracleAmount := oracleOut, wbf := wbf }
 
 /-- `Pool.SwapInAmtGivenOut`, `UseOracle = true`. -/
 def oSwapIn (p : OPool) (iIn : Nat) (amtOut fee : Int) (pr : OParams) : Except Err OSwapRes := do
@@ -306,6 +308,6 @@ def oSwapIn (p : OPool) (iIn : Nat) (amtOut fee : Int) (pr : OParams) : Except E
             let i2 ← quoC i1 f2
             let c ← ceilC i2
             if c < 0 then .error .panicNegCoin
-            else pure { amount := c, slippage := slippage, slippageAmount := slippageAmount, bonus := bonus, oracleAmount := oracleIn }
+            else pure { amount := c, slippage := slippage, slippageAmount := slippageAmount, bonus := bonus, oracleAmount := oracleIn, wbf := wbf }
 
 end Elys.Amm
